@@ -826,6 +826,12 @@ func (p *pp) printArg(arg interface{}, verb rune) {
 func (p *pp) printValue(value reflect.Value, verb rune, depth int) {
 	// Handle values with special methods if not already handled by printArg (depth == 0).
 	if depth > 0 && value.IsValid() {
+		if value.Kind() == reflect.Interface && !value.IsNil() {
+			// What counts for the registry of safe types is the type
+			// of the value stored in an interface-typed slice element
+			// or map value, not that of the slot.
+			value = value.Elem()
+		}
 		t := value.Type()
 		if p.handleSpecialValues(value, t, verb, depth) {
 			return
